@@ -115,3 +115,34 @@ Proof.
   unfold SignalDef_Unit, SignalDef_Name, SignalDef_Pos, map_get_bytes. change h_unitsuffixes_unitSuffixes with unit_suffixes.
   destruct (lookup (sg_unit x) unit_suffixes); fin. split_ifs; fin.
 Qed.
+
+(* ---- analyzers with a map as loop state: induction with the state generalised ------------------- *)
+Lemma TL_uniquemessageids_run_eq : forall f, LintTranslated.uniquemessageids_run f = Lint.uniquemessageids_run f.
+Proof.
+  intros f. unfold LintTranslated.uniquemessageids_run, Lint.uniquemessageids_run. cbv zeta.
+  match goal with |- context [lint_for ?b _ _] => set (body := b) end.
+  assert (H : forall l ds seen, fst (lint_for body l (ds, seen)) = ds ++ umi_loop seen l).
+  { induction l as [|d l IH]; intros ds seen; cbn [lint_for umi_loop fst].
+    - now rewrite app_nil_r.
+    - destruct d; try (cbn; apply IH).
+      cbn [body as_MessageDef]. rewrite TL_IsIndependentSignalsMessage_eq.
+      destruct (is_independent_signals_message m); [apply IH|].
+      unfold set_mem_Z, MessageDef_MessageID, MessageDef_Pos.
+      destruct (mem_Z (m_id m) seen); norm_msg; rewrite IH; [rewrite <- app_assoc|]; reflexivity. }
+  specialize (H (f_defs f) [] []). destruct (lint_for body (f_defs f) ([], [])) as [ds ids]. cbn in H. now subst.
+Qed.
+
+Lemma TL_uniquesignalnames_run_eq : forall f, LintTranslated.uniquesignalnames_run f = Lint.uniquesignalnames_run f.
+Proof.
+  intros f. unfold LintTranslated.uniquesignalnames_run, Lint.uniquesignalnames_run, for_each. cbv zeta. f_equal.
+  loop_flat; [reflexivity|].
+  destruct x; try (fin; fail). cbv beta iota delta [as_MessageDef MessageDef_Signals].
+  rewrite TL_IsIndependentSignalsMessage_eq. destruct (is_independent_signals_message m); [fin|].
+  match goal with |- context [lint_for ?b _ _] => set (body := b) end.
+  assert (H : forall l ds0 seen, fst (lint_for body l (ds0, seen)) = ds0 ++ usn_loop seen l).
+  { induction l as [|s l IH]; intros ds0 seen; cbn [lint_for usn_loop fst].
+    - now rewrite app_nil_r.
+    - cbn [body]. unfold set_mem_bytes, SignalDef_Name, SignalDef_Pos.
+      destruct (mem_bytes (sg_name s) seen); norm_msg; rewrite IH; [rewrite <- app_assoc|]; reflexivity. }
+  specialize (H (m_signals m) ds []). destruct (lint_for body (m_signals m) (ds, [])) as [ds1 ns]. cbn in H. now subst.
+Qed.
